@@ -586,6 +586,37 @@ theorem decode_sound (s hrp data : Bytes) (enc : Model.Bech32Encoding) (h : Mode
               rw [← hcs, ← hsplit, v3, hs]
               simp [Model.lowerCase]
 
+/-- the symbols `bech32::Decode` returns are 5-bit values -/
+theorem decode_values_lt (s hrp data : Bytes) (enc : Model.Bech32Encoding) (h : Model.bech32Decode s = some (enc, hrp, data)) :
+    ∀ v ∈ data, v.toNat < 32 := by
+  unfold Model.bech32Decode at h
+  split at h
+  · simp at h
+  · cases hp : Model.rfindOne s with
+    | none => simp [hp] at h
+    | some pos =>
+      rw [hp] at h
+      simp only [] at h
+      split at h
+      · simp at h
+      · cases hv : Model.bech32Values (s.drop (pos + 1)) with
+        | none => simp [hv] at h
+        | some values =>
+          rw [hv] at h
+          simp only [] at h
+          obtain ⟨_, v2, _, _⟩ := bech32Values_inv _ values hv
+          generalize (s.take pos).map Model.lowerCase = hrp' at h
+          cases hvc : Model.verifyChecksum hrp' values with
+          | INVALID => simp [hvc] at h
+          | BECH32 | BECH32M =>
+            all_goals
+              rw [hvc] at h
+              simp at h
+              obtain ⟨_, _, e3⟩ := h
+              intro v hv'
+              rw [← e3] at hv'
+              exact v2 v (List.mem_of_mem_take hv')
+
 -- ---------------------------------------------------------------------------------------------
 -- a single wrong symbol is always detected
 
